@@ -76,6 +76,14 @@ func famClear(r *Rng, o *Out, tier string) {
 			cavs[j] = r.Cav(3)
 			o.count(fmt.Sprintf("cav.%T", cavs[j]))
 		}
+		// a caveat type of a library USER (not in the registered universe): it implements macaroon.Attestation
+		// and answers per value; IsAttestation() == false means it is an ordinary caveat that must be asked
+		if r.Chance(1, 10) {
+			uc := &userCaveat{Attest: r.Chance(1, 3)}
+			at := r.Intn(len(cavs) + 1)
+			cavs = append(cavs[:at], append([]macaroon.Caveat{uc}, cavs[at:]...)...)
+			o.count(fmt.Sprintf("cav.user.attest=%v", uc.Attest))
+		}
 		nr := pick(r, []int{1, 1, 1, 2, 3, 4, 0})
 		reqs := make([]req, nr)
 		accs := make([]macaroon.Access, nr)
@@ -106,6 +114,19 @@ func famClear(r *Rng, o *Out, tier string) {
 		}
 	}
 }
+
+// userCaveat is a caveat type defined outside the library whose values decide whether they are
+// attestations.  It always prohibits.  The model has no such kind; it is rendered as the model kind
+// with the same clearing behaviour: an attestation (skipped) when Attest, an always-refusing
+// caveat (unregistered: ErrBadCaveat) when not.
+type userCaveat struct{ Attest bool }
+
+func (c *userCaveat) CaveatType() macaroon.CaveatType { return macaroon.CaveatType(1 << 40) }
+func (c *userCaveat) Name() string                    { return "HarnessUserCaveat" }
+func (c *userCaveat) Prohibits(macaroon.Access) error {
+	return fmt.Errorf("%w: user caveat", macaroon.ErrBadCaveat)
+}
+func (c *userCaveat) IsAttestation() bool { return c.Attest }
 
 // ---- C09: resource sets, conditionals, actions over a small universe ----
 
